@@ -45,4 +45,11 @@ theorem scanWith_replFunc_step (cfg : Cfg) (g : Env → Str → Out) (hg : cfg.r
   rw [scanC_succ]; unfold scanCK; simp only [hm, hg]
   cases g env m <;> rfl
 
+/-- the `panic matchGroups` branch of the model is real: under a caller-supplied pattern whose match contains a
+    `}` before its end (`\$\{([a-z]+)\}\}`), the text truncated at the first balanced `}` no longer matches and
+    `matchGroups` indexes a nil slice (the real function panics on the same input: corpus
+    `opts-custom-pattern-rematch-panics.json`).  For the default pattern this cannot happen: `subst_never_panics`. -/
+theorem custom_pattern_can_panic :
+    substWith (patCfg matchDblG) (fun _ => none) "${a}}".toList = .panic .matchGroups := by decide
+
 end CV.Template
